@@ -447,6 +447,10 @@ func verifyCRLSignature(result *crlreader.CRLReadResult, chains *core.Certificat
 	var signatureCert *core.CertificateChainEntry
 	crlVerified := false
 	for _, certCandidate := range certCandidates {
+		if certCandidate.Certificate.KeyUsage != 0 && certCandidate.Certificate.KeyUsage&x509.KeyUsageCRLSign == 0 {
+			//the key usage extension is present and does not permit crl signing (rfc5280 section 4.2.1.3)
+			continue
+		}
 		strategies := result.HashAndVerifyStrategy
 		err := strategies.VerifyStrategy.VerifySignature(strategies.HashStrategy, certCandidate.Certificate.PublicKey, result.CalculatedSignature, result.Signature.Bytes)
 		if err == nil {
